@@ -289,6 +289,9 @@ func driveC12(c *Ctx) {
 		items = make([]any, n)
 		for i := range items {
 			items[i] = GenValue(c, 2)
+			if c.W(12) == 0 {
+				items[i] = bigObject(c) // objects with many members: size thresholds in the value hash
+			}
 			if c.W(3) == 0 {
 				items[i] = rerepr(c, items[i], 1)
 			}
@@ -469,6 +472,15 @@ func driveC12(c *Ctx) {
 	if c.logOn {
 		c.Sample = map[string]any{"kind": kind, "values": typed, "instance": typedJSON(inst), "definition_valid": want, "equal_pairs": eqPairs, "configurations": ncfg}
 	}
+}
+
+// bigObject returns an object with 17-48 members.
+func bigObject(c *Ctx) any {
+	m := map[string]any{}
+	for i, n := 0, 17+c.W(32); i < n; i++ {
+		m[fmt.Sprintf("k%02d", i)] = float64(c.W(3))
+	}
+	return m
 }
 
 // clone0 deep-copies canonical JSON values.
